@@ -289,6 +289,20 @@ pub fn c10_type<T: KS>(out: &mut Out, rng: &mut Rng, tier: &Tier) {
                 });
             }
         }
+        // neighbors.rs: all Hamming-distance-1 neighbours, in iteration order; after exhaustion the iterator must keep
+        // returning None (three more calls)
+        {
+            let r: Option<Vec<T>> = guard(|| {
+                let mut it = debruijn::neighbors::KmerOneHammingIter::new(x);
+                let v: Vec<T> = it.by_ref().collect();
+                for _ in 0..3 {
+                    assert!(it.next().is_none(), "not fused");
+                }
+                v
+            });
+            out.case("k.neighbors", cfgv::<T>(vec![sv()]), opt(r.as_ref().map(|v| l(v.iter().map(|y| n(y.st())).collect()))));
+            out.case("s.k.neighbors", kv::<T>(vec![dna(&xb)]), opt(r.map(|v| l(v.iter().map(|y| dna(&bases_of(y))).collect()))));
+        }
         // binary ops against structured partners
         let partners = [
             s,
